@@ -684,8 +684,8 @@ func (fc *FuncCtx) fromIface(v *Value, t types.Type) *Value {
 	case KErr:
 		return scalar(sh, v.L[len(v.L)-1])
 	case KStr:
-		f := e.declFun("unbox.str", []string{"Int"}, "Str")
-		return scalar(sh, app(f, v.L[1]))
+		e.ensureBoxStrAxiom()
+		return scalar(sh, app("unbox.str", v.L[1]))
 	case KStruct:
 		// boxed struct: contents are read from the box heap
 		return e.readStructAt(fc.curState, sh, v.L[1])
